@@ -255,6 +255,25 @@ func CheckEnum(c EnumCase, seed uint64, nRandom int, otherNames []string, res *E
 		res.Samples = append(res.Samples, fmt.Sprintf("%s: %d -> %q", c.Name, c.Consts[len(c.Consts)-1].Value, t))
 	}
 
+	// a number is accepted as such: whatever decimal text the parser accepts must give that number
+	for _, n := range []uint64{0, 1, 3, 5, 64, 255, 4097, 65536} {
+		nn := n
+		safe(func() {
+			res.Values++
+			v, err := c.Unmarshal(strconv.FormatUint(nn, 10))
+			if err == nil && v != nn {
+				res.find(fmt.Sprintf("enum=%s value=%d what=number", c.Name, nn), fmt.Sprintf("the decimal text %d is accepted but parses to %d", nn, v), nn)
+			}
+			if c.Bitmask && len(c.Consts) > 0 && c.Consts[0].Value != 0 {
+				// a name combined with a number
+				txt := c.Consts[0].Name + " | " + strconv.FormatUint(nn, 10)
+				if v, err := c.Unmarshal(txt); err == nil && v != c.Consts[0].Value|nn {
+					res.find(fmt.Sprintf("enum=%s value=%d what=number", c.Name, nn), fmt.Sprintf("the text %q is accepted but parses to %d", txt, v), txt)
+				}
+			}
+		})
+	}
+
 	// rejection
 	bad := []string{"", " ", "foo", "NOT_A_NAME", "1.5", "0x10", "1e3", "--1", "NaN", "A |", " | ", "| A", "1 2", "٣"}
 	if len(c.Consts) > 0 {
